@@ -369,6 +369,8 @@ def word_ok(w):
     `!`, `${…}` / `@(…)` / `$(…)` sub-expression, regex-glob backtick, redirect, trailing line continuation)?"""
     if not w or w in PY_KEYWORD_WORDS:
         return False
+    if re.match(r"(and|or)\s", w):
+        return False  # `and` / `or` followed by white space (for the lexer: any Unicode space, e.g. U+3000) is the operator
     if w[0] in "#!" or w.endswith("\\") or "`" in w or "!" in w:
         return False
     if re.search(r"@[($!]|[$][(\[{]", w) and "${" not in w:
@@ -1367,6 +1369,17 @@ LEXER_MESSAGES = re.compile(r'EOF in multi-line|Unmatched "[)\]}]" at line|" at 
 TRIPLE = ('"' * 3, "'" * 3)
 
 
+def pure_message(x):
+    """is this argument nothing but a message of the lexer (they are appended at the end of the line's tokens)?"""
+    return x.startswith("EOF in multi-line") or re.fullmatch(r'Unmatched "[(\[{]" at line \d+, column \d+', x) is not None
+
+
+def unmessage(x):
+    """an argument with the lexer's message about a closing bracket (which stands where the bracket was, glued to its word) undone"""
+    x = re.sub(r'Unmatched "([)\]}])" at line \d+, column \d+', r"\1", x)
+    return re.sub(r'"([)\]}])" at \(\d+, \d+\) ends "[^"]*" at \(\d+, \d+\) \(expected "[^"]*"\)', r"\1", x)
+
+
 def stream_captured(ctx, ses, n, name="captured-output-as-argument"):
     ctx.stream_rule(
         name,
@@ -1466,15 +1479,22 @@ def check_captured(ctx, ses, name, i, text, *_ignored):
         want = []
         for l, t in zip(lines, per):
             plain_line = not re.search(r"['\"]|(^|\s)#", l)
-            want += l.split() if plain_line else [x for x in t if not LEXER_MESSAGES.search(x)]
+            want += l.split() if plain_line else [unmessage(x) for x in t if not pure_message(x)]
         if mid != want:
             key = None
             nf = lambda x: unicodedata.normalize("NFKC", x)  # noqa: E731
-            if is_open("captured-inject-nfkc-normalised") and mid == m_toks and "".join(mid) == "".join(nf(x) for x in want) and nf(text) != text:
-                key = "captured-inject-nfkc-normalised"  # exactly the per-line answers of Lexer.split, which differ only by NFKC (and the re-split it causes)
-            elif is_open("captured-inject-lexer-error-text") and mid == m_toks and any(LEXER_MESSAGES.search(x) for x in mid) and \
-                    [x for x in mid if not LEXER_MESSAGES.search(x)] == [x for l in lines for x in l.split() if not x.startswith(TRIPLE)]:
-                key = "captured-inject-lexer-error-text"  # the lexer's error message(s) arrive as arguments (an unterminated triple quote is replaced by one)
+            core = [unmessage(x) for x in mid if not pure_message(x)]  # the arguments without the lexer's messages
+            has_msg = core != mid
+            nfkc_only = core != want and "".join(core) == "".join(nf(x) for x in want) and nf(text) != text
+            if mid == m_toks and (not has_msg or is_open("captured-inject-lexer-error-text")) and \
+                    (core == want or (has_msg and "".join(core) == "".join(want)) or (nfkc_only and is_open("captured-inject-nfkc-normalised"))):
+                # exactly the per-line answers of Lexer.split; they differ from the tokens of the output only by the lexer's error messages (a
+                # message is longer than the bracket it replaces, so the rest of that word comes loose: compared without blanks then)
+                # and / or by NFKC normalisation (and the re-split it causes): both known artefacts
+                if has_msg:
+                    key = "captured-inject-lexer-error-text"
+                elif nfkc_only:
+                    key = "captured-inject-nfkc-normalised"
             ctx.spec_failure(case, {"argv": got, "tokens_of_the_output": want}, "@$() did not deliver the white-space separated tokens of the captured output verbatim", key)
 
 
